@@ -1,8 +1,12 @@
 use std::sync::{Arc, OnceLock};
 
+#[cfg(not(folo_verif))]
 use arc_swap::ArcSwapOption;
 use many_cpus::{MemoryRegionId, SystemHardware};
 use rsevents::{Awaitable, EventState, ManualResetEvent};
+
+#[cfg(folo_verif)]
+use crate::__verif::sync::ArcSwapOption;
 
 /// Provides access to an instance of `T` whose values are local to the current memory region.
 /// Callers from different memory regions will observe different instances of `T`.
